@@ -354,13 +354,15 @@ def gen_universe(rng, size=4, with_ext=True, ext_forms=False, force=None):
     if rng.random() < 0.7 or 'dep' in force:
         v = rng.choice(['1.1', '1.3'])
         req = [{'id': 'ba', 'version': '1'}] if (rng.random() < 0.6 or 'dep' in force) else None
-        if req and rng.random() < 0.4:
-            req[0]['url'] = 'https://ex.org/ba'
-        if req and rng.random() < 0.4:
-            m_ = {'id': 'missing', 'version': '9'}
-            if rng.random() < 0.5:
-                m_['url'] = 'http://nowhere'
-            req.insert(rng.choice([0, 1]), m_)
+        if req:
+            # further declared dependencies that are not installed; urls present or absent independently; any order
+            for did, dver in (('missing', '9'), ('other', '0')):
+                if rng.random() < 0.45:
+                    req.append({'id': did, 'version': dver})
+            for r_ in req:
+                if rng.random() < 0.5:
+                    r_['url'] = 'https://ex.org/' + r_['id']
+            rng.shuffle(req)
         b2 = gen_lexicon(rng, 'bb', '1', rng.choice(['en', 'fr']), ilis, v, size, requires=req)
         out.append(('bb:1', {'lmf_version': v, 'lexicons': [b2]}))
     if rng.random() < 0.4 or 'v2' in force:
